@@ -88,6 +88,8 @@ def _analyse(args):
         prog = Program(root, overlay=overlay, base=base)
         ctx = report.Ctx(prop, "quick", prog)
         mod.run(ctx)
+        from .core import generic
+        generic.hygiene(ctx)
         return {"keys": [f.key for f in ctx.findings], "error": None}
     except report.AnalysisError as e:
         return {"keys": [f.key for f in ctx.findings] if ctx else [], "error": str(e)}
